@@ -64,6 +64,7 @@ def job_history(args):
     shared_kwargs = {}
     shared_expect = {}
     shared_sregs = {}
+    shared_gens = {}
     probes = {"nonempty_mapping": 0, "crash_fired": 0, "crash_in_generate_code": 0}
     for op in args["ops"]:
         kind = op["op"]
@@ -86,7 +87,18 @@ def job_history(args):
                         shared_sregs[op["sreg_id"]] = build_str_registry(op["sreg_base"])
                     sreg = narrow_str_registry(shared_sregs[op["sreg_id"]], op["sreg_base"], op["options"]["str_types"])
                     probes["shared_string_registry_generations"] = probes.get("shared_string_registry_generations", 0) + 1
-                gen, reg = infer(op["models"], op["options"], str_registry_obj=sreg)
+                gen_obj = cmps_obj = None
+                if op.get("gen_id") is not None:
+                    # ... and ONE MetadataGenerator / ONE list of comparator objects for all of them
+                    from ..pipeline import make_cmps
+                    gen_obj = shared_gens.get(op["gen_id"])
+                    if "cmps" not in shared_gens:
+                        shared_gens["cmps"] = make_cmps(op["options"].get("merge", ["percent", "number"]))
+                    cmps_obj = shared_gens["cmps"]
+                gen, reg = infer(op["models"], op["options"], str_registry_obj=sreg, gen_obj=gen_obj, cmps_obj=cmps_obj)
+                if op.get("gen_id") is not None:
+                    shared_gens[op["gen_id"]] = gen
+                    probes["shared_generator_generations"] = probes.get("shared_generator_generations", 0) + 1
                 slots[op["slot"]] = {"reg": reg, "gen": gen, "tree": _is_tree(reg)}
                 return _dump_registry(reg)
         elif kind == "EXTEND":
@@ -281,6 +293,10 @@ def make_history(seed, i, max_ops=4):
         g2["options"] = dict(g2["options"], str_types=second)
         for g in (g1, g2):
             g.update(sreg_id=0, sreg_base=base)
+        if rng.random() < 0.5:
+            # the same MetadataGenerator and comparator objects as well (all other inference options are equal: both
+            # slots hold copies of one workload)
+            g1["gen_id"] = g2["gen_id"] = 0
         tail = []
         for sx in (s2, s1):
             r = render_op(sx)
@@ -501,6 +517,8 @@ def run(ctx):
             stats["forced_nested_perturbation"] += r["probes"].get("forced_nested_perturbation", 0)
             stats["shared_string_registry_generations"] = stats.get("shared_string_registry_generations", 0) + \
                 r["probes"].get("shared_string_registry_generations", 0)
+            stats["shared_generator_generations"] = stats.get("shared_generator_generations", 0) + \
+                r["probes"].get("shared_generator_generations", 0)
             gens = [o for o in h if o["op"] == "GEN"]
             stats["twin_slots_unicode_flip"] += any(a["models"] == b["models"] and a["slot"] != b["slot"] for a in gens for b in gens)
             rs = [o for o in h if o["op"] == "RENDER"]
